@@ -152,7 +152,14 @@ func genC20(r *Run) {
 		if i%2 == 0 {
 			p, _ = dhcpv4.FromBytes(w)
 		} else {
-			a := r.randPkt(r.randOpts(6, 40))
+			o4 := r.randOpts(6, 40)
+			if r.Rng.Intn(3) == 0 { // a constructed map may hold the framing codes End / Pad as keys
+				o4[255] = r.Bytes(r.Pick(0, 0, 2))
+			}
+			if r.Rng.Intn(4) == 0 {
+				o4[0] = r.Bytes(r.Pick(0, 1))
+			}
+			a := r.randPkt(o4)
 			if r.Rng.Intn(3) == 0 {
 				a[10] = r.Bytes(r.Pick(17, 20, 20, 32, 255)) // a constructed packet may hold a hardware address longer than the 16-octet field
 			}
@@ -191,6 +198,7 @@ func genC20(r *Run) {
 			dhcpv4.OptClasslessStaticRoute(r.randRoutes()...),
 			dhcpv4.OptSubnetMask(net.IPMask(r.Bytes(4))), dhcpv4.OptHostName("h"), dhcpv4.OptGeneric(dhcpv4.GenericOptionCode(200), r.Bytes(5)),
 			dhcpv4.OptRelayAgentInfo(dhcpv4.OptGeneric(dhcpv4.GenericOptionCode(2), []byte{1, 2}), dhcpv4.OptGeneric(dhcpv4.GenericOptionCode(1), []byte{3})),
+			dhcpv4.OptRelayAgentInfo(dhcpv4.OptGeneric(dhcpv4.GenericOptionCode(255), nil), dhcpv4.OptGeneric(dhcpv4.GenericOptionCode(0), []byte{7}), dhcpv4.OptGeneric(dhcpv4.GenericOptionCode(9), []byte{3})),
 			dhcpv4.OptMaxMessageSize(1500),
 		}
 		for _, o := range opts {
